@@ -655,3 +655,45 @@ def c09_props(s):
     d = SP.decompose(s)
     diffs = {k: (getattr(t, k), d[k]) for k in ('trs', 'twp', 'rge', 'sec', 'twp_num', 'twp_ns', 'rge_num', 'rge_ew', 'sec_num', 'twprge') if getattr(t, k) != d[k]}
     return bool(diffs), f'Tract(trs={s!r}): {diffs}'
+
+
+# ------------------------------------------------------------------ C04
+@replay('c04_words')
+def c04_words(text, config, cls):
+    import pytrs
+    from collections import Counter
+    from props.c04_ref import words_of, CULL
+    from pytrs.parser.rgxlib import twprge_regex, multisec_regex
+    d = pytrs.PLSSDesc(text, config=config)
+    pp = d.pp_desc
+    rec = []
+    for rgx in (twprge_regex, multisec_regex):
+        rec += [m.span() for m in rgx.finditer(pp)]
+    outside = Counter(w for w, a, b in words_of(pp) if not any(a >= s and b <= e for s, e in rec))
+    sinks = [t.desc for t in d.tracts] + [c for f, c in d.e_flag_lines if f.startswith('unused_desc')]
+    inside = Counter()
+    for s_ in sinks:
+        rec_s = []
+        for rgx in (twprge_regex, multisec_regex):
+            rec_s += [m.span() for m in rgx.finditer(s_)]
+        inside.update(w for w, a, b in words_of(s_) if not any(a >= s and b <= e for s, e in rec_s))
+    missing = [w for w, n in outside.items() if inside[w] < n]
+    if cls == 'cull-word':
+        missing = [w for w in missing if w.lower() in CULL]
+    return bool(missing), (f'{text!r} config={config!r}: words {missing} occur more often in the text than in the tract descriptions '
+                           f'{[t.desc for t in d.tracts]} and unused_desc flags {d.e_flags}')
+
+
+@replay('c04_pp')
+def c04_pp(text, with_pm):
+    import pytrs
+    from props.c04_ref import words_of
+    d = pytrs.PLSSDesc(text + '\nSec 14: NE/4')
+    pp = d.pp_desc
+    import re
+    tail = text
+    m = re.search(r'[a-z][a-z ]*[a-z]|[a-z]', text.split('\n')[-1] if False else text)
+    # the prose word(s) are the lower-case run after the Twp/Rge
+    prose = re.findall(r'(?<![A-Za-z])[a-z]+(?![A-Za-z])', text)
+    lost = [w for w in prose if w not in pp]
+    return bool(lost), f'pp_desc {pp!r}: prose words {lost} of {text!r} were deleted by preprocessing'
